@@ -68,7 +68,7 @@ def o11_2(tier):
         # the selectors below are the contract's anchors; if the code is restructured they are reported as anchor-not-found (undecided)
         frag = ctx.fragment(GM, "generate_mesh", ["edgeRange = range(0, ne)", "for e in bedges:"])
         ne = 3
-        for e, cells_at_ends in (([5, 6, 7, 8, 9, 10, 11], (3, 3)), ([5, 6, 7], (3, 3)), ([5, 6], (2, 2)), ([5, 6], (3, 2)), ([5, 6], (1, 2)), ([5, 6, 7, 8], (2, 2))):
+        for e, cells_at_ends in (([5, 6, 7, 8, 9, 10, 11], (3, 3)), ([5, 6, 7], (3, 3)), ([5, 6], (2, 2)), ([5, 6], (3, 2)), ([5, 6], (2, 3)), ([5, 6], (1, 2)), ([5, 6, 7, 8], (2, 2))):
             V = cls(ctx, "forsys.vertex", "Vertex")
             vd = ctx.dict()
             for vid in e:
